@@ -416,6 +416,23 @@ def rule_identity(ctx: Ctx) -> None:
     ctx.floor("6-identity", n6, 9)
 
 
+def rule_no_value_projection(ctx: Ctx) -> None:
+    """The payload of a key is built from the value ITSELF.  An arithmetic projection of it first (`+counter` drops zero AND negative
+    counts, `abs(x)`, `-x`, `x % n`, `round(x)`) maps unequal values to one key."""
+    fn, _b = _to_hashable_facts(ctx)
+    proj = []
+    for f_ in Scope(ctx, fn, wide=True).funcs:
+        p0 = (f_.param_names() or ["obj"])[0]
+        for n_ in ast.walk(f_.node):
+            if isinstance(n_, ast.UnaryOp) and isinstance(n_.op, (ast.UAdd, ast.USub, ast.Invert)) and isinstance(n_.operand, ast.Name) and n_.operand.id == p0:
+                proj.append((f_, n_))
+            if isinstance(n_, ast.Call) and dotted(n_.func) in ("abs", "round", "int", "float", "bool") and n_.args and isinstance(n_.args[0], ast.Name) and n_.args[0].id == p0 and f_ is fn:
+                proj.append((f_, n_))
+    ctx.add("6-identity", proj[0][0] if proj else fn, proj[0][1] if proj else fn.node, not proj, "no key is built from an arithmetic projection of the value" if not proj else
+            f"`{norm(proj[0][1])}` projects the value before it is keyed (for a Counter, unary plus removes zero and NEGATIVE counts): values that differ only in what the projection drops get the same key, "
+            "memoize returns one's result for the other", key="no-value-projection")
+
+
 def rule_stable(ctx: Ctx) -> None:
     fn, _b = _to_hashable_facts(ctx)
     all_returns = [r for r in walk_no_nested(fn.node) if isinstance(r, ast.Return)]
@@ -455,6 +472,11 @@ def rule_stable(ctx: Ctx) -> None:
         src = Scope(ctx, h).text()
         unstable = [w for w in ("hash(", "id(") if w in src.replace("hashlib", "").replace("md5(", "")]
         good = "dumps(" in src and any(w in src for w in ("md5", "sha1", "sha256", "blake2"))
+        lossy_text = [c for f_ in Scope(ctx, h).funcs for c in ast.walk(f_.node) if isinstance(c, ast.Call) and dotted(c.func) in ("repr", "str", "format", "ascii")]
+        if lossy_text and "dumps(" not in src:
+            ctx.add("7-stable", h, lossy_text[0], False, f"{hn} digests `{norm(lossy_text[0])[:30]}` instead of the pickled key: a repr is not injective (dataclass fields with repr=False, the default `<C object at 0x...>` "
+                    "whose address is reused) - unequal keys share a file and a DiskCache returns the stored result of another call", key=f"def {hn}")
+            continue
         ctx.tri("7-stable", h, h.node, good and not unstable, bool(unstable), f"{hn}: pickle bytes -> digest", f"{hn} uses {unstable}: the name differs between processes", f"{hn}: derivation not recognised", key=f"def {hn}")
     # the canonical order of unordered containers must not depend on hash()/id() either
     for f in [x for x in ctx.prog.functions_in(MOD) if x.cls is None and x.name in CONVERTERS | SORTERS]:
@@ -562,7 +584,7 @@ def rule_sole(ctx: Ctx) -> None:  # noqa: C901
 
 def check(ctx: Ctx) -> None:
     _roles(ctx)
-    for rule in (rule_tagged, rule_dispatch, rule_order_and_recursion, rule_no_preflattening, rule_total, rule_identity, rule_stable, rule_sole):
+    for rule in (rule_tagged, rule_dispatch, rule_order_and_recursion, rule_no_preflattening, rule_total, rule_identity, rule_no_value_projection, rule_stable, rule_sole):
         ctx.run(rule)
 
 
